@@ -191,6 +191,13 @@ def _shape_table():
             return None
         return [0, 1, (1 << w) + 2]
 
+    @shape("span_alias16")
+    def _(r, lo, hi, signed, bits):
+        # the same coincidence modulo 2^16 in every repr wider than 16 bits, modulo 2^8 in 16-bit reprs
+        if bits == 8:
+            return None
+        return [0, 1, 65538] if bits > 16 else [0, 1, 258]
+
     @shape("span_alias_neg")
     def _(r, lo, hi, signed, bits):
         w = {16: 8, 32: 16, 64: 32, 128: 32}.get(bits)
